@@ -252,9 +252,9 @@ func init() {
 			checkC16(c, budget(c.Tier, 500, 50000))
 		}}
 	props["C18"] = propRun{
-		rule: "generated declarations (Completer-typed options and positionals, hidden options, nested commands) and argument vectors made of a plausible prefix and a partial last word (long/short prefixes, --name=partial, -xpartial, command prefixes, bare dash); completion list compared with the model; sortedness and hidden-name oracles; distinct per case",
+		rule: "generated declarations (Completer-typed options and positionals, hidden options, nested commands) and argument vectors made of a plausible prefix and a partial last word (long/short prefixes, --name=partial, -xpartial, command prefixes, bare dash); completion list compared with the model; sortedness and hidden-name oracles; acceptance oracle against the parser itself (its own parse of the typed words gives the command context; every offered option / command, appended to those words, must be taken by the parser as that option / command; long-option and command lists must be exactly the visible ones of that context which the parser accepts there; the probes are compared with the model too); distinct per case",
 		run: func(c *Ctx) {
-			checkC18(c, budget(c.Tier, 800, 80000))
+			checkC18(c, budget(c.Tier, 1500, 80000))
 		}}
 }
 
